@@ -79,7 +79,7 @@ class World:
         return (HOSTS[op["h"]], PORTS[op["p"]], bool(op.get("tls")), proxy[0] if proxy else None, proxy[1:] if proxy else None)
 
     def on_request(self, peer: Peer, head: bytes) -> None:
-        m = re.match(rb"GET (?:https?://[^/ ]+)?/r(\d+) HTTP/1\.1", head)
+        m = re.match(rb"(?:GET|POST) (?:https?://[^/ ]+)?/r(\d+) HTTP/1\.1", head)
         n = int(m.group(1)) if m else -1
         op = self.current
         peer.requests.append(n)
@@ -94,6 +94,10 @@ class World:
         if op is None or n != op["n"]:
             return
         ps = op["peer"]
+        if b"expect: 100-continue" in head.lower():
+            # the server answers with the final response straight away and never reads the announced body: unless the
+            # client sends the body anyway, the connection cannot carry another request (its bytes would be read as that body)
+            peer.tainted = peer.tainted or f"request r{n} announced a body with Expect: 100-continue, got a final response, body unsent"
         body = f"conn{peer.idx}-r{n}-".encode() + bytes((n * 31 + i) % 251 for i in range(ps.get("size", 10)))
         op["_expect_body"] = body
         hdr = f"HTTP/1.1 200 OK\r\nX-Exchange: {n}\r\n"
@@ -222,7 +226,10 @@ def execute(case: dict) -> dict:
                     before = len(world.peers)
                     res: dict = {"n": n}
                     try:
-                        resp = await session.get(url, **kw)
+                        if op.get("expect"):
+                            resp = await session.post(url, data=b"0123456789", expect100=True, **kw)
+                        else:
+                            resp = await session.get(url, **kw)
                         res["status"] = resp.status
                         res["xch"] = resp.headers.get("X-Exchange")
                         try:
@@ -341,6 +348,7 @@ def cases(draw, narrow: bool):
         "read": st.sampled_from(["full", "full", "full", "partial", "none"]),
         "end": st.sampled_from(["release", "release", "close"]),
         "settle": st.integers(0, 4),
+        "expect": st.sampled_from([False, False, False, False, True]),
         "peer": st.fixed_dictionaries({
             "framing": st.sampled_from(["cl", "cl", "chunked", "eof"]),
             "size": st.sampled_from([0, 1, 10, 300]),
